@@ -269,6 +269,18 @@ func runC08Case(c *fw.Ctx, cs c08Case, stepwise bool) (string, string) {
 			cands = append(cands, m2)
 		}
 		if bad := recoverAndCompare(c, dir, cands); bad != "" {
+			// defect-aware variant (known finding): a request that drops a family AND creates it again persists its
+			// complete definition first and purges afterwards; a kill in between leaves the old cells visible in the new
+			// family. That state is exactly "the request with drop+create of X replaced by update of X".
+			if killed && len(acks) < len(seg.Ops) {
+				if op2, ok := c08Unpurged(seg.Ops[len(acks)]); ok {
+					m3 := model.Clone()
+					m3.Apply(&op2, nil, 0)
+					if recoverAndCompare(c, dir, []*bt.Model{m3}) == "" {
+						return "recovery-unpurged-recreated-family", fmt.Sprintf("segment %d: after %d acknowledged requests, killed at point %d inside %s: the new definition is persisted but the cells of the dropped-and-re-created family are not purged yet, so they are served under the new family", si, len(acks), seg.Kill, seg.Ops[len(acks)].String())
+					}
+				}
+			}
 			inflight := "none"
 			if killed && len(acks) < len(seg.Ops) {
 				inflight = seg.Ops[len(acks)].String()
@@ -289,6 +301,42 @@ func runC08Case(c *fw.Ctx, cs c08Case, stepwise bool) (string, string) {
 		}
 	}
 	return "", ""
+}
+
+// c08Unpurged rewrites a ModifyColumnFamilies request that drops a family and creates it again into the request
+// whose effect is "new definition, nothing purged for the re-created families" (drop X ... create X => update X).
+func c08Unpurged(o bt.Op) (bt.Op, bool) {
+	if o.Kind != "ModifyFamilies" {
+		return o, false
+	}
+	var out []bt.Mod
+	found := false
+	dropAt := map[string]int{} // family -> index in out of its pending drop
+	for _, m := range o.Mods {
+		switch m.Op {
+		case "drop":
+			dropAt[m.ID] = len(out)
+			out = append(out, m)
+		case "create":
+			if i, ok := dropAt[m.ID]; ok {
+				out = append(out[:i:i], out[i+1:]...)
+				for k, v := range dropAt {
+					if v > i {
+						dropAt[k] = v - 1
+					}
+				}
+				delete(dropAt, m.ID)
+				out = append(out, bt.Mod{ID: m.ID, Op: "update", GC: m.GC})
+				found = true
+			} else {
+				out = append(out, m)
+			}
+		default:
+			out = append(out, m)
+		}
+	}
+	o.Mods = out
+	return o, found
 }
 
 func replayC08(c *fw.Ctx, raw json.RawMessage) (string, string) {
@@ -334,6 +382,8 @@ func c08Alphabet() []bt.Op {
 		{Kind: "DropRowRange", Table: tblT, All: true},
 		{Kind: "DeleteTable", Table: tblT},
 		{Kind: "DeleteTable", Table: tblJT},
+		mod(bt.Mod{ID: "g", Op: "drop"}, bt.Mod{ID: "f", Op: "update", GC: mv(2)}),
+		mod(bt.Mod{ID: "f", Op: "update", GC: mv(3)}, bt.Mod{ID: "g", Op: "drop"}, bt.Mod{ID: "g", Op: "create", GC: mv(1)}),
 	}
 }
 
@@ -446,18 +496,38 @@ func runC08(c *fw.Ctx) {
 			if item%13 == 0 && k == before+1 {
 				c.Sample(map[string]interface{}{"program": bt.OpsString(ops), "kill_point": k, "points_in_program": total})
 			}
-			// crash chain: after the kill, a second short program with its own kill points
-			if k >= 0 && (len(p.seq) <= 2 || c.Thorough()) && item%4 == 0 {
+			// crash chain: after the kill, a second program with its own kill points. Every kill inside a
+			// request that touches the file system directly (schema changes, clear, create, delete) is
+			// followed by every second program; kills around plain row writes only for short programs.
+			lastKind := ops[len(ops)-1].Kind
+			fsReq := lastKind == "CreateTable" || lastKind == "DeleteTable" || lastKind == "ModifyFamilies" || (lastKind == "DropRowRange" && ops[len(ops)-1].All)
+			inRequest := k > before && k < total-1 // strictly inside the last request (a kill at a request boundary leaves nothing half-done)
+			deep := fsReq && inRequest
+			legacy := (len(p.seq) <= 2 || c.Thorough()) && item%4 == 0
+			if k >= 0 && (deep || legacy) {
 				seconds := [][]bt.Op{{alpha[2]}, {alpha[0]}, {alpha[8]}, {alpha[13]}}
+				if deep {
+					seconds = append(seconds,
+						[]bt.Op{alpha[2], alpha[13]},           // write, then clear: the clear must not be defeated by what the crash left behind
+						[]bt.Op{alpha[14], alpha[0], alpha[2]}, // delete, re-create, write
+						[]bt.Op{alpha[0], alpha[3], alpha[12]}) // (re-)create, write, prefix drop
+				}
 				for _, sec := range seconds {
-					for _, k2 := range []int{-1, 1, 2, 3} {
+					k2s := []int{-1}
+					switch {
+					case len(sec) == 1 && legacy:
+						k2s = []int{-1, 1, 2, 3}
+					case len(sec) > 1 && c.Thorough():
+						k2s = []int{-1, 2, 4, 6, 8}
+					}
+					for _, k2 := range k2s {
 						cs2 := c08Case{Segs: []c08Seg{{Ops: ops, Kill: k}, {Ops: sec, Kill: k2}}}
 						cl2, d2 := runC08Case(c, cs2, stepwise)
 						c.Eval(1)
 						if d2 == "beyond" {
 							continue
 						}
-						c.State(fw.Hash(fmt.Sprint(p.seq), fmt.Sprint(k, k2), sec[0].String()))
+						c.State(fw.Hash(fmt.Sprint(p.seq), fmt.Sprint(k, k2), bt.OpsString(sec)))
 						if cl2 != "" {
 							c.Violate("C08:"+cl2+":"+c08Tag(cs2), d2+"\n  program: "+bt.OpsString(ops)+" || then "+bt.OpsString(sec), cs2, nil)
 						}
